@@ -14,6 +14,7 @@ import (
 // between them denote the same value; a load with a dominating store to the
 // same address and nothing modifying in between denotes the stored value.
 type memVN struct {
+	p      *Prover
 	fn     *ssa.Function
 	key    map[*ssa.UnOp]string
 	rep    map[*ssa.UnOp]*ssa.UnOp
@@ -35,7 +36,7 @@ func (p *Prover) memOf(fn *ssa.Function) *memVN {
 	if m, ok := p.mem[fn]; ok {
 		return m
 	}
-	m := &memVN{fn: fn, key: map[*ssa.UnOp]string{}, rep: map[*ssa.UnOp]*ssa.UnOp{}, store: map[*ssa.UnOp]*ssa.Store{},
+	m := &memVN{p: p, fn: fn, key: map[*ssa.UnOp]string{}, rep: map[*ssa.UnOp]*ssa.UnOp{}, store: map[*ssa.UnOp]*ssa.Store{},
 		byKey: map[string][]*ssa.UnOp{}, stores: map[string][]*ssa.Store{}, info: map[string]*addrInfo{}, reach: map[ssa.Instruction]map[ssa.Instruction]bool{}}
 	p.mem[fn] = m
 	// dominator-tree preorder so that dominating loads are numbered first
@@ -315,6 +316,9 @@ func (m *memVN) mayWrite(p *Prover, x ssa.Instruction, k string, ai *addrInfo) b
 		if strings.HasPrefix(name, modPath+"/logging.") {
 			return false
 		}
+		if callee := cc.StaticCallee(); callee != nil && !cc.IsInvoke() && p.c.InModuleFn(callee) && p.readOnlyFn(callee) {
+			return false
+		}
 		// a call can modify the location only if it can reach the root object
 		if al, ok := ai.root.(*ssa.Alloc); ok {
 			return m.escapedBefore(al, x) || passes(cc, al)
@@ -363,6 +367,9 @@ func (m *memVN) escapedBefore(al *ssa.Alloc, x ssa.Instruction) bool {
 			}
 		case ssa.CallInstruction:
 			if _, isB := t.Common().Value.(*ssa.Builtin); !isB {
+				if callee := t.Common().StaticCallee(); callee != nil && !t.Common().IsInvoke() && m.p != nil && m.p.c.InModuleFn(callee) && m.p.readOnlyFn(callee) {
+					continue // only reads through the pointer and keeps no copy
+				}
 				esc = t
 			}
 		case *ssa.Phi:
